@@ -16,118 +16,118 @@ macro "alloc_walk" : tactic => `(tactic| repeat' (first
   | split))
 
 section
-variable (code : Code) (f : Fn) (fr : Frame) (ip : Int) (op : Nat) (r : Regs)
+variable (code : Code) (fr : Frame) (a0 a1 : Nat) (op : Nat) (r : Regs)
 
-theorem exConstant_noalloc : PostX (exConstant code f fr ip op r) (fun o => o.alloc = false) := by
+theorem exConstant_noalloc : PostX (exConstant code fr a0 a1 op r) (fun o => o.alloc = false) := by
   unfold exConstant; (try dsimp only); alloc_walk
 
-theorem exNull_noalloc : PostX (exNull code f fr ip op r) (fun o => o.alloc = false) := by
+theorem exNull_noalloc : PostX (exNull code fr a0 a1 op r) (fun o => o.alloc = false) := by
   unfold exNull; (try dsimp only); alloc_walk
 
-theorem exTrue_noalloc : PostX (exTrue code f fr ip op r) (fun o => o.alloc = false) := by
+theorem exTrue_noalloc : PostX (exTrue code fr a0 a1 op r) (fun o => o.alloc = false) := by
   unfold exTrue; (try dsimp only); alloc_walk
 
-theorem exFalse_noalloc : PostX (exFalse code f fr ip op r) (fun o => o.alloc = false) := by
+theorem exFalse_noalloc : PostX (exFalse code fr a0 a1 op r) (fun o => o.alloc = false) := by
   unfold exFalse; (try dsimp only); alloc_walk
 
-theorem exPop_noalloc : PostX (exPop code f fr ip op r) (fun o => o.alloc = false) := by
+theorem exPop_noalloc : PostX (exPop code fr a0 a1 op r) (fun o => o.alloc = false) := by
   unfold exPop; (try dsimp only); alloc_walk
 
-theorem exEqual_noalloc : PostX (exEqual code f fr ip op r) (fun o => o.alloc = false) := by
+theorem exEqual_noalloc : PostX (exEqual code fr a0 a1 op r) (fun o => o.alloc = false) := by
   unfold exEqual; (try dsimp only); alloc_walk
 
-theorem exLNot_noalloc : PostX (exLNot code f fr ip op r) (fun o => o.alloc = false) := by
+theorem exLNot_noalloc : PostX (exLNot code fr a0 a1 op r) (fun o => o.alloc = false) := by
   unfold exLNot; (try dsimp only); alloc_walk
 
-theorem exJumpFalsy_noalloc : PostX (exJumpFalsy code f fr ip op r) (fun o => o.alloc = false) := by
+theorem exJumpFalsy_noalloc : PostX (exJumpFalsy code fr a0 a1 op r) (fun o => o.alloc = false) := by
   unfold exJumpFalsy; (try dsimp only); alloc_walk
 
-theorem exAndJump_noalloc : PostX (exAndJump code f fr ip op r) (fun o => o.alloc = false) := by
+theorem exAndJump_noalloc : PostX (exAndJump code fr a0 a1 op r) (fun o => o.alloc = false) := by
   unfold exAndJump; (try dsimp only); alloc_walk
 
-theorem exOrJump_noalloc : PostX (exOrJump code f fr ip op r) (fun o => o.alloc = false) := by
+theorem exOrJump_noalloc : PostX (exOrJump code fr a0 a1 op r) (fun o => o.alloc = false) := by
   unfold exOrJump; (try dsimp only); alloc_walk
 
-theorem exJump_noalloc : PostX (exJump code f fr ip op r) (fun o => o.alloc = false) := by
+theorem exJump_noalloc : PostX (exJump code fr a0 a1 op r) (fun o => o.alloc = false) := by
   unfold exJump; (try dsimp only); alloc_walk
 
-theorem exSetGlobal_noalloc : PostX (exSetGlobal code f fr ip op r) (fun o => o.alloc = false) := by
+theorem exSetGlobal_noalloc : PostX (exSetGlobal code fr a0 a1 op r) (fun o => o.alloc = false) := by
   unfold exSetGlobal; (try dsimp only); alloc_walk
 
-theorem exGetGlobal_noalloc : PostX (exGetGlobal code f fr ip op r) (fun o => o.alloc = false) := by
+theorem exGetGlobal_noalloc : PostX (exGetGlobal code fr a0 a1 op r) (fun o => o.alloc = false) := by
   unfold exGetGlobal; (try dsimp only); alloc_walk
 
-theorem exSetSelGlobal_noalloc : PostX (exSetSelGlobal code f fr ip op r) (fun o => o.alloc = false) := by
+theorem exSetSelGlobal_noalloc : PostX (exSetSelGlobal code fr a0 a1 op r) (fun o => o.alloc = false) := by
   unfold exSetSelGlobal; (try dsimp only); alloc_walk
 
-theorem exIndex_noalloc : PostX (exIndex code f fr ip op r) (fun o => o.alloc = false) := by
+theorem exIndex_noalloc : PostX (exIndex code fr a0 a1 op r) (fun o => o.alloc = false) := by
   unfold exIndex; (try dsimp only); alloc_walk
 
-theorem exDefineLocal_noalloc : PostX (exDefineLocal code f fr ip op r) (fun o => o.alloc = false) := by
+theorem exDefineLocal_noalloc : PostX (exDefineLocal code fr a0 a1 op r) (fun o => o.alloc = false) := by
   unfold exDefineLocal; (try dsimp only); alloc_walk
 
-theorem exSetLocal_noalloc : PostX (exSetLocal code f fr ip op r) (fun o => o.alloc = false) := by
+theorem exSetLocal_noalloc : PostX (exSetLocal code fr a0 a1 op r) (fun o => o.alloc = false) := by
   unfold exSetLocal; (try dsimp only); alloc_walk
 
-theorem exSetSelLocal_noalloc : PostX (exSetSelLocal code f fr ip op r) (fun o => o.alloc = false) := by
+theorem exSetSelLocal_noalloc : PostX (exSetSelLocal code fr a0 a1 op r) (fun o => o.alloc = false) := by
   unfold exSetSelLocal; (try dsimp only); alloc_walk
 
-theorem exGetLocal_noalloc : PostX (exGetLocal code f fr ip op r) (fun o => o.alloc = false) := by
+theorem exGetLocal_noalloc : PostX (exGetLocal code fr a0 a1 op r) (fun o => o.alloc = false) := by
   unfold exGetLocal; (try dsimp only); alloc_walk
 
-theorem exGetBuiltin_noalloc : PostX (exGetBuiltin code f fr ip op r) (fun o => o.alloc = false) := by
+theorem exGetBuiltin_noalloc : PostX (exGetBuiltin code fr a0 a1 op r) (fun o => o.alloc = false) := by
   unfold exGetBuiltin; (try dsimp only); alloc_walk
 
-theorem exGetFreePtr_noalloc : PostX (exGetFreePtr code f fr ip op r) (fun o => o.alloc = false) := by
+theorem exGetFreePtr_noalloc : PostX (exGetFreePtr code fr a0 a1 op r) (fun o => o.alloc = false) := by
   unfold exGetFreePtr; (try dsimp only); alloc_walk
 
-theorem exGetFree_noalloc : PostX (exGetFree code f fr ip op r) (fun o => o.alloc = false) := by
+theorem exGetFree_noalloc : PostX (exGetFree code fr a0 a1 op r) (fun o => o.alloc = false) := by
   unfold exGetFree; (try dsimp only); alloc_walk
 
-theorem exSetFree_noalloc : PostX (exSetFree code f fr ip op r) (fun o => o.alloc = false) := by
+theorem exSetFree_noalloc : PostX (exSetFree code fr a0 a1 op r) (fun o => o.alloc = false) := by
   unfold exSetFree; (try dsimp only); alloc_walk
 
-theorem exGetLocalPtr_noalloc : PostX (exGetLocalPtr code f fr ip op r) (fun o => o.alloc = false) := by
+theorem exGetLocalPtr_noalloc : PostX (exGetLocalPtr code fr a0 a1 op r) (fun o => o.alloc = false) := by
   unfold exGetLocalPtr; (try dsimp only); alloc_walk
 
-theorem exSetSelFree_noalloc : PostX (exSetSelFree code f fr ip op r) (fun o => o.alloc = false) := by
+theorem exSetSelFree_noalloc : PostX (exSetSelFree code fr a0 a1 op r) (fun o => o.alloc = false) := by
   unfold exSetSelFree; (try dsimp only); alloc_walk
 
-theorem exIteratorNext_noalloc : PostX (exIteratorNext code f fr ip op r) (fun o => o.alloc = false) := by
+theorem exIteratorNext_noalloc : PostX (exIteratorNext code fr a0 a1 op r) (fun o => o.alloc = false) := by
   unfold exIteratorNext; (try dsimp only); alloc_walk
 
-theorem exIteratorKey_noalloc : PostX (exIteratorKey code f fr ip op r) (fun o => o.alloc = false) := by
+theorem exIteratorKey_noalloc : PostX (exIteratorKey code fr a0 a1 op r) (fun o => o.alloc = false) := by
   unfold exIteratorKey; (try dsimp only); alloc_walk
 
-theorem exBinaryOp_alloc : PostX (exBinaryOp code f fr ip op r) (fun o => o.alloc = true) := by
+theorem exBinaryOp_alloc : PostX (exBinaryOp code fr a0 a1 op r) (fun o => o.alloc = true) := by
   unfold exBinaryOp; (try dsimp only); alloc_walk
 
-theorem exBComplement_alloc : PostX (exBComplement code f fr ip op r) (fun o => o.alloc = true) := by
+theorem exBComplement_alloc : PostX (exBComplement code fr a0 a1 op r) (fun o => o.alloc = true) := by
   unfold exBComplement; (try dsimp only); alloc_walk
 
-theorem exMinus_alloc : PostX (exMinus code f fr ip op r) (fun o => o.alloc = true) := by
+theorem exMinus_alloc : PostX (exMinus code fr a0 a1 op r) (fun o => o.alloc = true) := by
   unfold exMinus; (try dsimp only); alloc_walk
 
-theorem exArray_alloc : PostX (exArray code f fr ip op r) (fun o => o.alloc = true) := by
+theorem exArray_alloc : PostX (exArray code fr a0 a1 op r) (fun o => o.alloc = true) := by
   unfold exArray; (try dsimp only); alloc_walk
 
-theorem exMap_alloc : PostX (exMap code f fr ip op r) (fun o => o.alloc = true) := by
+theorem exMap_alloc : PostX (exMap code fr a0 a1 op r) (fun o => o.alloc = true) := by
   unfold exMap; (try dsimp only); alloc_walk
 
-theorem exError_alloc : PostX (exError code f fr ip op r) (fun o => o.alloc = true) := by
+theorem exError_alloc : PostX (exError code fr a0 a1 op r) (fun o => o.alloc = true) := by
   unfold exError; (try dsimp only); alloc_walk
 
-theorem exSliceIndex_alloc : PostX (exSliceIndex code f fr ip op r) (fun o => o.alloc = true) := by
+theorem exSliceIndex_alloc : PostX (exSliceIndex code fr a0 a1 op r) (fun o => o.alloc = true) := by
   unfold exSliceIndex; (try dsimp only); alloc_walk
 
-theorem exClosure_alloc : PostX (exClosure code f fr ip op r) (fun o => o.alloc = true) := by
+theorem exClosure_alloc : PostX (exClosure code fr a0 a1 op r) (fun o => o.alloc = true) := by
   unfold exClosure; (try dsimp only); alloc_walk
 
-theorem exIteratorInit_alloc : PostX (exIteratorInit code f fr ip op r) (fun o => o.alloc = true) := by
+theorem exIteratorInit_alloc : PostX (exIteratorInit code fr a0 a1 op r) (fun o => o.alloc = true) := by
   unfold exIteratorInit; (try dsimp only); alloc_walk
 
 /-- IMMUT allocates exactly when it wraps an array or a map; otherwise it leaves the registers alone. -/
-theorem exImmutable_alloc : PostX (exImmutable code f fr ip op r) (fun o => o.alloc = true ∨ (o.alloc = false ∧ o.regs = r)) := by
+theorem exImmutable_alloc : PostX (exImmutable code fr a0 a1 op r) (fun o => o.alloc = true ∨ (o.alloc = false ∧ o.regs = r)) := by
   unfold exImmutable; (try dsimp only)
   repeat' (first
     | with_reducible apply PostX_rtE | with_reducible apply PostX_unsupE | with_reducible apply PostX_fault
@@ -139,8 +139,8 @@ end
 
 /-- A call allocates exactly when the callee is a builtin (the result object); calls of compiled
 functions, tail calls and returns do not. -/
-theorem execReturn_noalloc (f : Fn) (ip : Int) (c : Core) :
-    PostX (execReturn f ip c) (fun o => ∀ c' a, o = .next c' a → a = false) := by
+theorem execReturn_noalloc (a0 : Nat) (c : Core) :
+    PostX (execReturn a0 c) (fun o => ∀ c' a, o = .next c' a → a = false) := by
   unfold execReturn; (try dsimp only)
   repeat' (first
     | with_reducible apply PostX_fault
@@ -153,44 +153,44 @@ theorem execReturn_noalloc (f : Fn) (ip : Int) (c : Core) :
 def simpleAllocOps : List Nat := [opBinaryOp, opBComplement, opMinus, opArray, opMap, opError, opImmutable, opSliceIndex, opClosure, opIteratorInit]
 
 /-- **No other simple instruction is ever counted.** -/
-theorem execSimple_noalloc (code : Code) (f : Fn) (fr : Frame) (ip : Int) (op : Nat) (r : Regs)
-    (hop : op ∉ simpleAllocOps) : PostX (execSimple code f fr ip op r) (fun o => o.alloc = false) := by
+theorem execSimple_noalloc (code : Code) (fr : Frame) (a0 a1 : Nat) (op : Nat) (r : Regs)
+    (hop : op ∉ simpleAllocOps) : PostX (execSimple code fr a0 a1 op r) (fun o => o.alloc = false) := by
   by_cases hConstant : op = opConstant
-  · subst hConstant; rw [execSimple_Constant]; exact exConstant_noalloc code f fr ip _ r
+  · subst hConstant; rw [execSimple_Constant]; exact exConstant_noalloc code fr a0 a1 _ r
   by_cases hNull : op = opNull
-  · subst hNull; rw [execSimple_Null]; exact exNull_noalloc code f fr ip _ r
+  · subst hNull; rw [execSimple_Null]; exact exNull_noalloc code fr a0 a1 _ r
   by_cases hTrue : op = opTrue
-  · subst hTrue; rw [execSimple_True]; exact exTrue_noalloc code f fr ip _ r
+  · subst hTrue; rw [execSimple_True]; exact exTrue_noalloc code fr a0 a1 _ r
   by_cases hFalse : op = opFalse
-  · subst hFalse; rw [execSimple_False]; exact exFalse_noalloc code f fr ip _ r
+  · subst hFalse; rw [execSimple_False]; exact exFalse_noalloc code fr a0 a1 _ r
   by_cases hPop : op = opPop
-  · subst hPop; rw [execSimple_Pop]; exact exPop_noalloc code f fr ip _ r
+  · subst hPop; rw [execSimple_Pop]; exact exPop_noalloc code fr a0 a1 _ r
   by_cases hBinaryOp : op = opBinaryOp
   · subst hBinaryOp; exact absurd (by decide) hop
   by_cases hEqual : op = opEqual
-  · subst hEqual; rw [execSimple_Equal]; exact exEqual_noalloc code f fr ip _ r
+  · subst hEqual; rw [execSimple_Equal]; exact exEqual_noalloc code fr a0 a1 _ r
   by_cases hNotEqual : op = opNotEqual
-  · subst hNotEqual; rw [execSimple_NotEqual]; exact exEqual_noalloc code f fr ip _ r
+  · subst hNotEqual; rw [execSimple_NotEqual]; exact exEqual_noalloc code fr a0 a1 _ r
   by_cases hLNot : op = opLNot
-  · subst hLNot; rw [execSimple_LNot]; exact exLNot_noalloc code f fr ip _ r
+  · subst hLNot; rw [execSimple_LNot]; exact exLNot_noalloc code fr a0 a1 _ r
   by_cases hBComplement : op = opBComplement
   · subst hBComplement; exact absurd (by decide) hop
   by_cases hMinus : op = opMinus
   · subst hMinus; exact absurd (by decide) hop
   by_cases hJumpFalsy : op = opJumpFalsy
-  · subst hJumpFalsy; rw [execSimple_JumpFalsy]; exact exJumpFalsy_noalloc code f fr ip _ r
+  · subst hJumpFalsy; rw [execSimple_JumpFalsy]; exact exJumpFalsy_noalloc code fr a0 a1 _ r
   by_cases hAndJump : op = opAndJump
-  · subst hAndJump; rw [execSimple_AndJump]; exact exAndJump_noalloc code f fr ip _ r
+  · subst hAndJump; rw [execSimple_AndJump]; exact exAndJump_noalloc code fr a0 a1 _ r
   by_cases hOrJump : op = opOrJump
-  · subst hOrJump; rw [execSimple_OrJump]; exact exOrJump_noalloc code f fr ip _ r
+  · subst hOrJump; rw [execSimple_OrJump]; exact exOrJump_noalloc code fr a0 a1 _ r
   by_cases hJump : op = opJump
-  · subst hJump; rw [execSimple_Jump]; exact exJump_noalloc code f fr ip _ r
+  · subst hJump; rw [execSimple_Jump]; exact exJump_noalloc code fr a0 a1 _ r
   by_cases hSetGlobal : op = opSetGlobal
-  · subst hSetGlobal; rw [execSimple_SetGlobal]; exact exSetGlobal_noalloc code f fr ip _ r
+  · subst hSetGlobal; rw [execSimple_SetGlobal]; exact exSetGlobal_noalloc code fr a0 a1 _ r
   by_cases hGetGlobal : op = opGetGlobal
-  · subst hGetGlobal; rw [execSimple_GetGlobal]; exact exGetGlobal_noalloc code f fr ip _ r
+  · subst hGetGlobal; rw [execSimple_GetGlobal]; exact exGetGlobal_noalloc code fr a0 a1 _ r
   by_cases hSetSelGlobal : op = opSetSelGlobal
-  · subst hSetSelGlobal; rw [execSimple_SetSelGlobal]; exact exSetSelGlobal_noalloc code f fr ip _ r
+  · subst hSetSelGlobal; rw [execSimple_SetSelGlobal]; exact exSetSelGlobal_noalloc code fr a0 a1 _ r
   by_cases hArray : op = opArray
   · subst hArray; exact absurd (by decide) hop
   by_cases hMap : op = opMap
@@ -200,41 +200,41 @@ theorem execSimple_noalloc (code : Code) (f : Fn) (fr : Frame) (ip : Int) (op : 
   by_cases hImmutable : op = opImmutable
   · subst hImmutable; exact absurd (by decide) hop
   by_cases hIndex : op = opIndex
-  · subst hIndex; rw [execSimple_Index]; exact exIndex_noalloc code f fr ip _ r
+  · subst hIndex; rw [execSimple_Index]; exact exIndex_noalloc code fr a0 a1 _ r
   by_cases hSliceIndex : op = opSliceIndex
   · subst hSliceIndex; exact absurd (by decide) hop
   by_cases hDefineLocal : op = opDefineLocal
-  · subst hDefineLocal; rw [execSimple_DefineLocal]; exact exDefineLocal_noalloc code f fr ip _ r
+  · subst hDefineLocal; rw [execSimple_DefineLocal]; exact exDefineLocal_noalloc code fr a0 a1 _ r
   by_cases hSetLocal : op = opSetLocal
-  · subst hSetLocal; rw [execSimple_SetLocal]; exact exSetLocal_noalloc code f fr ip _ r
+  · subst hSetLocal; rw [execSimple_SetLocal]; exact exSetLocal_noalloc code fr a0 a1 _ r
   by_cases hSetSelLocal : op = opSetSelLocal
-  · subst hSetSelLocal; rw [execSimple_SetSelLocal]; exact exSetSelLocal_noalloc code f fr ip _ r
+  · subst hSetSelLocal; rw [execSimple_SetSelLocal]; exact exSetSelLocal_noalloc code fr a0 a1 _ r
   by_cases hGetLocal : op = opGetLocal
-  · subst hGetLocal; rw [execSimple_GetLocal]; exact exGetLocal_noalloc code f fr ip _ r
+  · subst hGetLocal; rw [execSimple_GetLocal]; exact exGetLocal_noalloc code fr a0 a1 _ r
   by_cases hGetBuiltin : op = opGetBuiltin
-  · subst hGetBuiltin; rw [execSimple_GetBuiltin]; exact exGetBuiltin_noalloc code f fr ip _ r
+  · subst hGetBuiltin; rw [execSimple_GetBuiltin]; exact exGetBuiltin_noalloc code fr a0 a1 _ r
   by_cases hClosure : op = opClosure
   · subst hClosure; exact absurd (by decide) hop
   by_cases hGetFreePtr : op = opGetFreePtr
-  · subst hGetFreePtr; rw [execSimple_GetFreePtr]; exact exGetFreePtr_noalloc code f fr ip _ r
+  · subst hGetFreePtr; rw [execSimple_GetFreePtr]; exact exGetFreePtr_noalloc code fr a0 a1 _ r
   by_cases hGetFree : op = opGetFree
-  · subst hGetFree; rw [execSimple_GetFree]; exact exGetFree_noalloc code f fr ip _ r
+  · subst hGetFree; rw [execSimple_GetFree]; exact exGetFree_noalloc code fr a0 a1 _ r
   by_cases hSetFree : op = opSetFree
-  · subst hSetFree; rw [execSimple_SetFree]; exact exSetFree_noalloc code f fr ip _ r
+  · subst hSetFree; rw [execSimple_SetFree]; exact exSetFree_noalloc code fr a0 a1 _ r
   by_cases hGetLocalPtr : op = opGetLocalPtr
-  · subst hGetLocalPtr; rw [execSimple_GetLocalPtr]; exact exGetLocalPtr_noalloc code f fr ip _ r
+  · subst hGetLocalPtr; rw [execSimple_GetLocalPtr]; exact exGetLocalPtr_noalloc code fr a0 a1 _ r
   by_cases hSetSelFree : op = opSetSelFree
-  · subst hSetSelFree; rw [execSimple_SetSelFree]; exact exSetSelFree_noalloc code f fr ip _ r
+  · subst hSetSelFree; rw [execSimple_SetSelFree]; exact exSetSelFree_noalloc code fr a0 a1 _ r
   by_cases hIteratorInit : op = opIteratorInit
   · subst hIteratorInit; exact absurd (by decide) hop
   by_cases hIteratorNext : op = opIteratorNext
-  · subst hIteratorNext; rw [execSimple_IteratorNext]; exact exIteratorNext_noalloc code f fr ip _ r
+  · subst hIteratorNext; rw [execSimple_IteratorNext]; exact exIteratorNext_noalloc code fr a0 a1 _ r
   by_cases hIteratorKey : op = opIteratorKey
-  · subst hIteratorKey; rw [execSimple_IteratorKey]; exact exIteratorKey_noalloc code f fr ip _ r
+  · subst hIteratorKey; rw [execSimple_IteratorKey]; exact exIteratorKey_noalloc code fr a0 a1 _ r
   by_cases hIteratorValue : op = opIteratorValue
-  · subst hIteratorValue; rw [execSimple_IteratorValue]; exact exIteratorKey_noalloc code f fr ip _ r
+  · subst hIteratorValue; rw [execSimple_IteratorValue]; exact exIteratorKey_noalloc code fr a0 a1 _ r
   -- unknown opcode
-  have : execSimple code f fr ip op r = fault (.unknownOpcode op) := by
+  have : execSimple code fr a0 a1 op r = fault (.unknownOpcode op) := by
     unfold execSimple
     simp [*]
   rw [this]
